@@ -9,6 +9,7 @@ pip install swcgeom[all]
 ```
 """
 
+import itertools
 import os
 import re
 import time
@@ -198,7 +199,14 @@ class ToImageStack(Transform[Tree, npt.NDArray[np.uint8]]):
         resolution: tuple[float, float] = (1, 1),
     ) -> None:
         with tifffile.TiffWriter(fname) as tif:
-            for frame in frames:
+            frames = iter(frames)
+            head = list(itertools.islice(frames, 2))
+            if len(head) == 1:
+                # a single frame has to carry the Z axis itself, the pages
+                # of a longer stack are stacked along it
+                head = [head[0][np.newaxis]]
+
+            for frame in itertools.chain(head, frames):
                 tif.write(
                     frame,
                     contiguous=True,
